@@ -18,6 +18,17 @@ pub trait Optimizer {
         F: for<'a> Fn(&[Var<'a>], &[&[f64]]) -> Var<'a>;
 }
 
+/// Relative change between two successive values of a parameter: 0 when they are equal,
+/// |a - b| / max(|a|, |b|) otherwise. Unlike a comparison of magnitudes it sees a sign flip and
+/// stays relative when one of the values is 0.
+pub(crate) fn rel_change(a: f64, b: f64) -> f64 {
+    if a == b {
+        0.
+    } else {
+        (a - b).abs() / a.abs().max(b.abs())
+    }
+}
+
 pub use self::adam::*;
 // pub use self::lbfgs::*;
 pub use self::lm::*;
